@@ -4,6 +4,7 @@ import (
 	"bytes"
 	"fmt"
 	"reflect"
+	"unsafe"
 
 	"github.com/openacid/slim/trie"
 )
@@ -46,6 +47,29 @@ func valuesBitsEqual(a, b interface{}) bool {
 	return true
 }
 
+// identity of the caller's slices: where every key and every byte-slice value
+// starts, how long it is and (values) its capacity. Replacing an element by an
+// equal one that lives elsewhere is a modification of the caller's slice that a
+// comparison of contents cannot see (a later in-place write by the caller then
+// hits another record).
+type sliceIdent struct {
+	p        unsafe.Pointer
+	len, cap int
+}
+
+func identities(keys []string, vals interface{}) []sliceIdent {
+	out := make([]sliceIdent, 0, 2*len(keys))
+	for _, k := range keys {
+		out = append(out, sliceIdent{unsafe.Pointer(unsafe.StringData(k)), len(k), 0})
+	}
+	if bv, ok := vals.([][]byte); ok {
+		for _, v := range bv {
+			out = append(out, sliceIdent{unsafe.Pointer(unsafe.SliceData(v)), len(v), cap(v)})
+		}
+	}
+	return out
+}
+
 func scribble(b []byte, pattern int) {
 	switch pattern % 3 {
 	case 0:
@@ -84,6 +108,7 @@ func checkC20(c *Case, s *Stats) error {
 			pointees[i] = *p
 		}
 	}
+	identBefore := identities(keys, vals)
 	var st *trie.SlimTrie
 	var berr error
 	err := guard("NewSlimTrie", func() error {
@@ -119,6 +144,15 @@ func checkC20(c *Case, s *Stats) error {
 	}
 	if !valuesBitsEqual(vals, valsBefore) {
 		return viol("values-modified", "NewSlimTrie modified the caller's value slice")
+	}
+	for i, id := range identities(keys, vals) {
+		if id != identBefore[i] {
+			what, j := "key", i
+			if i >= len(keys) {
+				what, j = "value", i-len(keys)
+			}
+			return viol("values-modified", "NewSlimTrie replaced element %d of the caller's %s slice by an equal one at another address (start %p -> %p, len %d -> %d, cap %d -> %d)", j, what, identBefore[i].p, id.p, identBefore[i].len, id.len, identBefore[i].cap, id.cap)
+		}
 	}
 	after := [4]*bool{opt.DedupValue, opt.InnerPrefix, opt.LeafPrefix, opt.Complete}
 	for i := range ptrs {
